@@ -41,7 +41,7 @@ func c18Discharger(c *core.Ctx, m *serverModel) Discharger {
 	digOK, digWhy := digestChain(c)
 	weOK, weWhy := wireErrorsNonEmptyGuard(c)
 	return func(fn *ssa.Function, s PanicSite) (bool, string) {
-		name := facts.FuncName(fn)
+		name := roleName(fn)
 		switch s.Kind {
 		case "panic":
 			if strings.HasSuffix(name, "scopeForRequest") {
@@ -600,7 +600,7 @@ func c18StatusGate(c *core.Ctx) {
 		for _, ci := range facts.CallsIn(fn) {
 			if facts.CalleeName(ci.Common()) == "(*net/http.Client).Do" {
 				n++
-				c.Check(fn.Name() == "do" && fn.Parent() == nil, "C18.R3", facts.FuncName(fn)+"/http-do-only-in-gate", ci.Pos(), "HTTP requests are sent only by client.do (the status gate)", "an HTTP request is sent outside client.do: its response bypasses the status gate")
+				c.Check(fnName(fn) == "do" && fn.Parent() == nil, "C18.R3", facts.FuncName(fn)+"/http-do-only-in-gate", ci.Pos(), "HTTP requests are sent only by client.do (the status gate)", "an HTTP request is sent outside client.do: its response bypasses the status gate")
 			}
 		}
 	}
